@@ -211,6 +211,69 @@ func (fc *FC) StoresToField(idx int, field string) []*ssa.Store {
 // LitField: the value stored to `field` of the composite literal of struct
 // type typeName built in this function (unique reachable store).
 func (fc *FC) LitField(typeName, field string) *RF {
+	// the value the field has when the (unique) struct of that type built here
+	// is handed on — returned, loaded as a whole, or passed to a call: covers
+	// positional and keyed literals (omitted fields are zero), new(T) followed
+	// by assignments, and fields assigned after the literal
+	var allocs []*ssa.Alloc
+	fc.Ctx.Instrs(func(in ssa.Instruction) {
+		if al, ok := in.(*ssa.Alloc); ok {
+			if fc.X.typeName(al.Type().Underlying().(*types.Pointer).Elem()) == typeName {
+				allocs = append(allocs, al)
+			}
+		}
+	})
+	if len(allocs) == 1 {
+		al := allocs[0]
+		pt := al.Type().Underlying().(*types.Pointer).Elem()
+		if st, ok := pt.Underlying().(*types.Struct); ok {
+			fi := -1
+			for i := 0; i < st.NumFields(); i++ {
+				if st.Field(i).Name() == field {
+					fi = i
+				}
+			}
+			var pts []ssa.Instruction
+			for _, rt := range fc.Ctx.Returns() {
+				for _, res := range rt.Results {
+					if res == al {
+						pts = append(pts, rt)
+					}
+				}
+			}
+			if len(pts) == 0 && al.Referrers() != nil {
+				for _, ref := range *al.Referrers() {
+					switch u := ref.(type) {
+					case *ssa.UnOp:
+						if u.X == al {
+							pts = append(pts, u)
+						}
+					case *ssa.Call:
+						pts = append(pts, u)
+					case *ssa.MakeInterface:
+						pts = append(pts, u)
+					}
+				}
+			}
+			if fi >= 0 && len(pts) > 0 {
+				var v *RF
+				same := true
+				for _, at := range pts {
+					if !fc.Ctx.Reach[at.Block().Index] {
+						continue
+					}
+					cv := fc.cellValue(cellKey{al, fi}, pt, at)
+					if v != nil && !v.Equal(cv) {
+						same = false
+					}
+					v = cv
+				}
+				if v != nil && same {
+					return v
+				}
+			}
+		}
+	}
 	var found []*ssa.Store
 	fc.Ctx.Instrs(func(in ssa.Instruction) {
 		st, ok := in.(*ssa.Store)
@@ -932,10 +995,16 @@ func (b *B) CheckSwap(rule, fnName string) {
 // atoms are split true/false. Makes the nesting order of if-then-else and
 // the way a comparison is written (x<0 vs !(0<=x), a<=b vs !(b<a)) irrelevant.
 func (x *Extractor) EquivByCases(a, b *RF, depth int) bool {
+	if depth == 0 {
+		x.caseBudget = 4000
+	}
 	if a.Equal(b) {
 		return true
 	}
-	if depth > 10 {
+	// bounded: a comparison that cannot be decided within the budget is
+	// reported as a mismatch (fail-closed), never left running
+	x.caseBudget--
+	if depth > 10 || x.caseBudget < 0 {
 		return false
 	}
 	// split on an innermost gating condition first (one that contains no
@@ -1433,4 +1502,53 @@ func (b *B) FullScan(rule, construct, where string, fc *FC, idx, n *RF) bool {
 	}
 	b.R.OK(rule, construct, where, "visits every index 0.."+clip(n.String(), 40)+"-1 once, in order")
 	return true
+}
+
+// TDistCDF: the Student-t distribution function, decided branch by branch so
+// that the code may obtain the lower tail either by the recursion
+// 1 - CDF(-x) or directly: CDF(0) = 1/2; for x>0, 1 - I(v/(v+x²); v/2, 1/2)/2;
+// for x<0, I(v/(v+x²); v/2, 1/2)/2 (a recursive call at -x is unfolded with
+// the x>0 formula, which is its value since -x>0); NaN otherwise.
+func (b *B) TDistCDF(rule string) {
+	name := "stats.(TDist).CDF"
+	fn := b.Fn(rule, name)
+	if fn == nil {
+		return
+	}
+	X, S := b.X, b.X.S
+	X.NoInline["mathx.BetaInc"] = true // its own formula is decided under C08 (imported)
+	b.guard(rule, name, func() {
+		env := X.EnvFor(fn, "t", "x")
+		pos := "(1-0.5*mathx.BetaInc(t.V/(t.V+x*x), t.V/2, 0.5))"
+		eq0, gt0, lt0 := env.MustParse("x==0"), env.MustParse("0<x"), env.MustParse("x<0")
+		cases := []struct {
+			tag  string
+			as   []Assumption
+			spec string
+		}{
+			{"x==0", []Assumption{{Cond: eq0, True: true}}, "0.5"},
+			{"x>0", []Assumption{{Cond: eq0, True: false}, {Cond: gt0, True: true}}, pos},
+			{"x<0", []Assumption{{Cond: eq0, True: false}, {Cond: gt0, True: false}, {Cond: lt0, True: true}}, "0.5*mathx.BetaInc(t.V/(t.V+x*x), t.V/2, 0.5)"},
+			{"x NaN", []Assumption{{Cond: eq0, True: false}, {Cond: gt0, True: false}, {Cond: lt0, True: false}}, "nan()"},
+		}
+		for _, c := range cases {
+			fc := X.Under(fn, c.as...)
+			got := fc.Sub(fc.RetVal(0))
+			// unfold a recursive call at -x with the x>0 formula
+			negx := env.MustParse("-x")
+			sub := map[AtomID]*RF{}
+			for _, at := range FindFn(got, "call:CDF") {
+				if len(at.Args) == 2 && at.Args[0].Equal(env.Vars["t"].RF) && at.Args[1].Equal(negx) && c.tag == "x<0" {
+					e2 := X.EnvFor(fn, "t", "x")
+					e2.Set("x", negx, nil)
+					sub[at.ID] = e2.MustParse(pos)
+				}
+			}
+			if len(sub) > 0 {
+				got = got.Subst(sub)
+			}
+			b.EqRF(rule, name+"/"+c.tag, b.pos(fn), got, fc.Sub(env.MustParse(c.spec)), "CDF for "+c.tag+" ≡ "+c.spec)
+		}
+		_ = S
+	})
 }
